@@ -15,7 +15,7 @@ func (n *json_num) UnmarshalJSON(b []byte) error {
 	return nil
 }
 func (n json_num) MarshalJSON() ([]byte, error) { return json.Marshal(string(n)) }
-func (n json_num) big() *big.Int               { return bigOf(string(n)) }
+func (n json_num) big() *big.Int                { return bigOf(string(n)) }
 
 func firstLine(s string) string {
 	if i := strings.IndexByte(s, '\n'); i >= 0 {
